@@ -6,7 +6,7 @@ Line-protocol driver for the blazer / Sequential-ordering model (property C16).
       reply  F=e:q,..;L=e:q,..;I=e,../q,..;R=e,../q,..;B=[e,../q,..][..]..      (B=err:bad when blaze raises)
   hpm <n> <bits>
       reply  T / F   (the decidable perfect-matching predicate used by the theorems)
-  seq <lhs>:<read>,<read>..;<lhs>:..;..
+  seq <lhs>:<tok>,<tok>..;<lhs>:..;..        tok: `name` (zero shift) or `name@shift` (lag/lead, dropped by the model as by the code)
       reply  names=..;im=<bits>;isseq=T|F;res=ok:[..]|err:bad;state=<lhs>:<reads>;..
   split <qids of eq 0>;<qids of eq 1>;.. | <eids> | <can be exogenized> | <exogenized> | <endogenized> | <rp> | <cp>
       reply  W=<unknown qids>;M=<bits of the steady incidence matrix>;B=<blocks>
@@ -79,12 +79,24 @@ def hasPM (im : Inc) : List Nat → List Nat → Bool
 
 def showSEq (e : SEq) : String := toString e.lhs ++ ":" ++ csv (e.reads.map toString)
 
+/-- a token `name` (zero shift) or `name@shift` -/
+def sTok? (w : String) : Option STok :=
+  match w.splitOn "@" with
+  | [n] => n.toNat?.map fun n => (n, 0)
+  | [n, k] => do
+    let n ← n.toNat?
+    let k ← (if k.startsWith "+" then (k.drop 1).toString else k).toInt?
+    pure (n, k)
+  | _ => none
+
+/-- `<lhs>:<token>,<token>..`; the model keeps the zero-shift tokens (`SEq.ofTokens`) -/
 def sEq? (s : String) : Option SEq :=
   match s.splitOn ":" with
   | [l, r] => do
     let l ← (nosp l).toNat?
-    let r ← natList? r
-    pure ⟨l, r⟩
+    let r := nosp r
+    let toks ← (if r = "" || r = "-" then some [] else (r.splitOn ",").mapM sTok?)
+    pure (SEq.ofTokens l toks)
   | _ => none
 
 def doSeq (m : SModel) : String :=
